@@ -9,7 +9,9 @@ import (
 // rng is splitmix64: every random choice of a run derives from the one seed, so a case replays exactly.
 type rng struct{ s uint64 }
 
-func newRng(seed uint64, stream uint64) *rng { return &rng{s: seed*0x9E3779B97F4A7C15 ^ (stream+1)*0xBF58476D1CE4E5B9} }
+func newRng(seed uint64, stream uint64) *rng {
+	return &rng{s: seed*0x9E3779B97F4A7C15 ^ (stream+1)*0xBF58476D1CE4E5B9}
+}
 
 func (r *rng) u64() uint64 {
 	r.s += 0x9E3779B97F4A7C15
@@ -24,9 +26,9 @@ func (r *rng) intn(n int) int {
 	}
 	return int(r.u64() % uint64(n))
 }
-func (r *rng) u32() uint32        { return uint32(r.u64() >> 32) }
+func (r *rng) u32() uint32          { return uint32(r.u64() >> 32) }
 func (r *rng) chance(p, q int) bool { return r.intn(q) < p }
-func pick[T any](r *rng, xs []T) T { return xs[r.intn(len(xs))] }
+func pick[T any](r *rng, xs []T) T  { return xs[r.intn(len(xs))] }
 
 func hx(s string) string {
 	if s == "" {
@@ -41,7 +43,7 @@ func hxs(ss []string) string {
 	}
 	return strings.Join(o, ",")
 }
-func itoa(i int) string    { return strconv.Itoa(i) }
+func itoa(i int) string { return strconv.Itoa(i) }
 func u32s(xs []uint32) string {
 	if len(xs) == 0 {
 		return "-"
